@@ -7,6 +7,7 @@ lemma applicable; for the prefix-sum division the same boundary identity is chec
 two binary searches.
 """
 import re
+import itertools
 
 from gsa.cfg import Fn, S, SN, canon, is_call, walk, lit
 from gsa import rules as R
@@ -53,6 +54,7 @@ def run(ctx):
     ceil_blocks(ctx, fx)
     binary_search(ctx, fx)
     weighted(ctx, fx)
+    specific_range(ctx, fx)
     block_division(ctx, fx)
     unit_ranges(ctx, fx)
     outidx_kind(ctx, fx)
@@ -365,6 +367,72 @@ def binary_search(ctx, fx):
         ctx.ob("C13.search.lower-bound-shape", f["qn"], not det, "; ".join(det), fn.loc(), "search", fnkey=f["key"])
 
 
+def specific_range(ctx, fx):
+    ctx.rule("C13.specific.clip-is-intersection",
+             "SpecificRange::block_pair (per-thread block clipped to the requested sub-range): the function only copies and "
+             "compares four values -- the thread's block [lb, le) and the requested range [gb, ge) -- so it is interpreted "
+             "abstractly over every total preorder of the four (with lb <= le, gb <= ge): on each one the returned pair is "
+             "the intersection [max(lb, gb), min(le, ge)) when that is non-empty and an empty range (begin == end) otherwise. The unclipped "
+             "fast path (its condition compares array contents, not these values) is only required to be exact where the "
+             "block lies inside the requested range, which is what its condition establishes when the thread ranges partition "
+             "the whole range")
+    fs = [f for f in fx.functions if f["qn"] == "galois::runtime::SpecificRange::block_pair" and f["kind"] == "inst"]
+    ctx.floor("SpecificRange::block_pair instantiations", len(fs), 1)
+    for f in fs[:2]:
+        fn = ctx.fn(f)
+        det = []
+        li = local_inits(fn)
+        # roles by shape: the two locals read from the thread table at [tid] and [tid + 1]
+        def table_read(t):
+            for x in walk(t):
+                if isinstance(x, dict) and x.get("k") == "idx" and "thread_beginnings" in S(x.get("b")):
+                    return S(x)
+            return None
+        tb = {n: table_read(v[0]) for n, v in li.items() if len(v) == 1 and table_read(v[0])}
+        lbn = [n for n, v in tb.items() if "+ 1" not in v]
+        len_ = [n for n, v in tb.items() if "+ 1" in v]
+        if len(lbn) != 1 or len(len_) != 1:
+            ctx.ob("C13.specific.clip-is-intersection", f["qn"], False, "block bounds are not read from thread_beginnings[tid] / [tid + 1]: %s" % tb,
+                   fn.loc(), "clip", fnkey=f["key"])
+            continue
+        LB, LE, GB, GE = lbn[0], len_[0], "this->global_begin", "this->global_end"
+        ncase = npath = 0
+        for lb, le, gb, ge in itertools.product(range(4), repeat=4):
+            if lb > le or gb > ge:
+                continue
+            ncase += 1
+            # the locals' own declarations would overwrite the ranks: seed them under the expression they are read from
+            st0 = {GB: gb, GE: ge, tb[LB]: lb, tb[LE]: le}
+            paths = R.order_paths(fn, st0)
+            if paths is None:
+                det.append("too many paths")
+                break
+            for e, st, und in paths:
+                npath += 1
+                t = e.get("e")
+                while isinstance(t, dict) and t.get("k") in ("cast", "ctor") and (t.get("e") or t.get("a")):
+                    t = t["e"] if t.get("k") == "cast" else t["a"][0]
+                a = t.get("a", []) if isinstance(t, dict) and t.get("k") == "call" and t.get("name") == "make_pair" else []
+                got = tuple(st.get(S(x)) for x in a) if len(a) == 2 else None
+                if got is None or None in got:
+                    det.append("a return is not a pair of the compared values: %s" % S(e.get("e")))
+                    continue
+                if any(taken for _, taken in und) and not (gb <= lb and le <= ge):
+                    continue        # unclipped fast path (an array-content condition held): only claimed where the block
+                                    # lies inside the requested range; the clip path (condition false) is claimed everywhere
+                lo, hi = max(lb, gb), min(le, ge)
+                # empty means begin == end: a pair with begin past end is not empty for `it != end` loops or std::distance
+                ok = got == (lo, hi) if lo < hi else got[0] == got[1]
+                if not ok:
+                    rk = lambda v: {lb: "lb", le: "le", gb: "gb", ge: "ge"}.get(v, str(v))
+                    det.append("order lb=%d le=%d gb=%d ge=%d: returns [%s, %s), expected %s" % (
+                        lb, le, gb, ge, got[0], got[1], "[%d, %d)" % (lo, hi) if lo < hi else "an empty range"))
+        if not npath:
+            det.append("no returning path interpreted")
+        ctx.ob("C13.specific.clip-is-intersection", f["qn"], not det, "; ".join(det[:3]) + (" (+%d more orderings)" % (len(det) - 3) if len(det) > 3 else ""),
+               fn.loc(), "clip/%d orderings" % ncase, fnkey=f["key"])
+
+
 def weighted(ctx, fx):
     ctx.rule("C13.weighted.adjacent-agree",
              "divideNodesBinarySearch: blockLower = scaleFactor[id - 1] (0 for id == 0), blockUpper = scaleFactor[id]; the two "
@@ -400,7 +468,10 @@ def weighted(ctx, fx):
             a1 = [S(x) for x in calls[1].get("a", [])]
             lo = a0 if "blockLower" in a0[2] else a1
             up = a1 if lo is a0 else a0
-            if lo[2] != "(blockWeight * blockLower)" or up[2] != "(blockWeight * blockUpper)":
+            tlo = tpoly((calls[0] if lo is a0 else calls[1])["a"][2])
+            tup = tpoly((calls[1] if lo is a0 else calls[0])["a"][2])
+            bwp = Poly.sym("blockWeight")
+            if tlo != bwp * Poly.sym("blockLower") or tup != bwp * Poly.sym("blockUpper"):      # as polynomials: order free
                 det.append("targets %s / %s" % (lo[2], up[2]))
             if lo[3] != "0" or up[3] != "nodesLower":
                 det.append("lower bounds %s / %s (the second search must start at the first result)" % (lo[3], up[3]))
